@@ -703,6 +703,129 @@ example : (Rect.mk? [[0, 1], [1, 0]]).toOption.map (fun r => (r.bondsH, r.bondsV
 example : (⟨2, 2, .infinite⟩ : Sq).site2index (0, 1) = (⟨2, 2, .infinite⟩ : Sq).site2index (2, -1) ∧
     (⟨2, 2, .infinite⟩ : Sq).site2index (1, 1) = (⟨2, 2, .infinite⟩ : Sq).site2index (3, -1) := by decide
 
+/-! ## TriangularLattice(full_patch=True): diagonal bonds -/
+
+theorem mem_triFull_bondsD {g : Sq} {b : Bond} :
+    b ∈ (⟨g, true⟩ : Tri).bondsD ↔ ∃ s, g.inCell s ∧ g.nnSite s Dir.b.vec = some b.1 ∧ g.nnSite s Dir.r.vec = some b.2 := by
+  simp only [Tri.bondsD, if_true, List.mem_filterMap, Sq.mem_sites]
+  constructor
+  · rintro ⟨s, hs, h⟩
+    refine ⟨s, hs, ?_⟩
+    cases hr : g.nnSite s Dir.r.vec with
+    | none => rw [hr] at h; exact absurd h (by simp)
+    | some sr =>
+      cases hbm : g.nnSite s Dir.b.vec with
+      | none => rw [hr, hbm] at h; exact absurd h (by simp)
+      | some sb =>
+        rw [hr, hbm] at h
+        simp only [Option.some.injEq] at h
+        subst h
+        exact ⟨rfl, rfl⟩
+  · rintro ⟨s, hs, h1, h2⟩
+    exact ⟨s, hs, by rw [h1, h2]⟩
+
+theorem Sq.diag_of_cell (g : Sq) (hx : 0 < g.Nx) (s sb sr : Site) (hs : g.inCell s)
+    (h1 : g.nnSite s (1, 0) = some sb) (h2 : g.nnSite s (0, 1) = some sr) :
+    g.nnSite sb (-1, 1) = some sr ∧ g.nnSite sr (1, -1) = some sb := by
+  obtain ⟨c1, c2, c3, c4⟩ := hs
+  cases hbd : g.bd with
+  | infinite =>
+    rw [Sq.nnSite_infinite hbd] at h1 h2 ⊢
+    rw [Sq.nnSite_infinite hbd]
+    cases h1; cases h2
+    constructor <;> (congr 1; ext <;> simp <;> omega)
+  | obc =>
+    rw [Sq.nnSite_obc hbd] at h1 h2 ⊢
+    rw [Sq.nnSite_obc hbd]
+    split at h1
+    · split at h2
+      · rename_i k1 k2
+        cases h1; cases h2
+        simp only [] at k1 k2
+        constructor
+        · rw [if_pos (by (try dsimp only); omega)]; congr 1; ext <;> simp <;> omega
+        · rw [if_pos (by (try dsimp only); omega)]; congr 1; ext <;> simp <;> omega
+      · exact absurd h2 (by simp)
+    · exact absurd h1 (by simp)
+  | cylinder =>
+    rw [Sq.nnSite_cylinder hbd hx] at h1 h2 ⊢
+    rw [Sq.nnSite_cylinder hbd hx]
+    split at h1
+    · split at h2
+      · rename_i k1 k2
+        cases h1; cases h2
+        simp only [] at k1 k2
+        constructor
+        · rw [if_pos (by (try dsimp only); omega)]
+          congr 1
+          ext
+          · show ((s.1 + 1) % (g.Nx : Int) + -1) % (g.Nx : Int) = (s.1 + 0) % (g.Nx : Int)
+            rw [← Int.sub_eq_add_neg, emod_sub_cancel, Int.add_zero]
+          · show s.2 + 0 + 1 = s.2 + 1
+            omega
+        · rw [if_pos (by (try dsimp only); omega)]
+          congr 1
+          ext
+          · show ((s.1 + 0) % (g.Nx : Int) + 1) % (g.Nx : Int) = (s.1 + 1) % (g.Nx : Int)
+            rw [Int.add_zero, Int.emod_add_emod]
+          · show s.2 + 1 + -1 = s.2 + 0
+            omega
+      · exact absurd h2 (by simp)
+    · exact absurd h1 (by simp)
+
+/-- **bonds_nn_ordered** (diagonal bonds of `TriangularLattice(full_patch=True)`, every boundary type): each listed
+diagonal bond is `(nn_site(s,'b'), nn_site(s,'r'))` for a site `s` of the cell with **both** neighbours defined, its
+end points are mutual `'tr'`/`'bl'` nearest neighbours, and it is strictly fermionically ordered. -/
+theorem triFull_bondsD_nn_ordered (g : Sq) (hx : 0 < g.Nx) (b : Bond) (hb : b ∈ (⟨g, true⟩ : Tri).bondsD) :
+    (∃ s, g.inCell s ∧ g.nnSite s Dir.b.vec = some b.1 ∧ g.nnSite s Dir.r.vec = some b.2) ∧
+    g.nnSite b.1 Dir.tr.vec = some b.2 ∧ g.nnSite b.2 Dir.bl.vec = some b.1 ∧
+    fOrdered b.1 b.2 = true ∧ fOrdered b.2 b.1 = false := by
+  obtain ⟨s, hs, h1, h2⟩ := mem_triFull_bondsD.mp hb
+  have y1 : b.1.2 = s.2 + 0 := Sq.nnSite_snd h1
+  have y2 : b.2.2 = s.2 + 1 := Sq.nnSite_snd h2
+  obtain ⟨d1, d2⟩ := g.diag_of_cell hx s b.1 b.2 hs h1 h2
+  refine ⟨⟨s, hs, h1, h2⟩, d1, d2, ?_, ?_⟩
+  · rw [fOrdered_iff]; omega
+  · rw [Bool.eq_false_iff]; intro h; rw [fOrdered_iff] at h; omega
+
+/-- diagonal bonds are listed once -/
+theorem triFull_bondsD_nodup (g : Sq) (hx : 0 < g.Nx) : (⟨g, true⟩ : Tri).bondsD.Nodup := by
+  simp only [Tri.bondsD, if_true]
+  have hp : g.sites.Pairwise (fun a a' => g.inCell a ∧ g.inCell a' ∧ a ≠ a') := by
+    have h := g.sites_nodup
+    rw [List.nodup_iff_pairwise_ne] at h
+    exact List.Pairwise.and_mem.mp h |>.imp (fun ⟨ha, ha', hne⟩ => ⟨Sq.mem_sites.mp ha, Sq.mem_sites.mp ha', hne⟩)
+  rw [List.nodup_iff_pairwise_ne]
+  refine List.Pairwise.filterMap _ ?_ hp
+  rintro a a' ⟨hc, hc', hne⟩ b hb b' hb' e
+  subst e
+  cases h1 : g.nnSite a Dir.r.vec with
+  | none => rw [h1] at hb; exact absurd hb (by simp)
+  | some ar =>
+    cases h3 : g.nnSite a' Dir.r.vec with
+    | none => rw [h3] at hb'; exact absurd hb' (by simp)
+    | some ar' =>
+      cases h2 : g.nnSite a Dir.b.vec with
+      | none => rw [h1, h2] at hb; exact absurd hb (by simp)
+      | some ab =>
+        cases h4 : g.nnSite a' Dir.b.vec with
+        | none => rw [h3, h4] at hb'; exact absurd hb' (by simp)
+        | some ab' =>
+          rw [h1, h2] at hb; rw [h3, h4] at hb'
+          simp only [Option.some.injEq] at hb hb'
+          rw [← hb] at hb'
+          have e : ar' = ar := by cases hb'; rfl
+          rw [e] at h3
+          have i1 := nnSite_inverse_cell g hx a ar .r hc h1
+          have i2 := nnSite_inverse_cell g hx a' ar .r hc' h3
+          rw [i1] at i2
+          exact hne (Option.some.inj i2)
+
+example : (⟨⟨2, 2, .obc⟩, true⟩ : Tri).bondsD = [((1, 0), (0, 1))] ∧
+    (⟨⟨2, 2, .cylinder⟩, true⟩ : Tri).bondsD = [((1, 0), (0, 1)), ((0, 0), (1, 1))] ∧
+    ((Geom.tri ⟨⟨2, 2, .obc⟩, true⟩).bonds none false).length = 5 := by decide
+
+
 /-!
 ## Not proved at full strength (kept visible)
 
